@@ -12,7 +12,7 @@ import (
 )
 
 func init() {
-	Explanations["C06"] = "Decides structural necessary conditions of 'the wallet ledger equals the chain's truth across reorgs' in package wallet: (R1) order — the apply step moves existing proofs (UpdateWalletSiacoinElementProofs) before WalletApplyIndex, the revert step calls WalletRevertIndex and then moves proofs on every success path, and UpdateChainState finishes all reverts before the first apply; (R2) exhaustiveness — every type implementing the event-data interface has a case in each type switch over Event.Data (four flow methods and the encoder), every EventType* constant has a case in both decoding switches, both decoders map each constant to the same data type, and every (type constant, data type) pair emitted by the event builder appears in that table; (R3) filter agreement — the apply and revert steps classify siacoin element diffs with the same case set (ephemeral skipped, foreign address skipped, created, spent) and hand created↔removed and spent↔unspent to the store in the corresponding argument positions. (R4) in the event builders two tests of different address operands of one loop element against the wallet's address are mutually independent (each reached on both outcomes of the other). (R5) each relevance predicate of the wallet (a function from a transaction and an address to bool) ranges over the whole siacoin output list and the whole siacoin input list of the transaction, comparing an address of the ranged element with its address parameter and reporting relevance on equality, and subscripts neither list at a fixed position — a jointly funded transaction is relevant whichever position the wallet's input has. (R6) in every function of the repository (the reference wallet store and contractor in testutil included), a loop over positions of a list that removes the element at the current position (slices.Delete(S, i, i+1) or append(S[:i], S[i+1:]...)) cannot come round to the next position on a path that neither decrements the position nor leaves the loop: otherwise the element that slid into the freed position is never examined (every second event of a reverted block survives). NOT decided: equality of the utxo set and events with a linear replay, maturity heights, inflow − outflow = balance."
+	Explanations["C06"] = "Decides structural necessary conditions of 'the wallet ledger equals the chain's truth across reorgs' in package wallet: (R1) order — the apply step moves existing proofs (UpdateWalletSiacoinElementProofs) before WalletApplyIndex, the revert step calls WalletRevertIndex and then moves proofs on every success path, and UpdateChainState finishes all reverts before the first apply; (R2) exhaustiveness — every type implementing the event-data interface has a case in each type switch over Event.Data (four flow methods and the encoder), every EventType* constant has a case in both decoding switches, both decoders map each constant to the same data type, and every (type constant, data type) pair emitted by the event builder appears in that table; (R3) filter agreement — the apply and revert steps classify siacoin element diffs with the same case set (ephemeral skipped, foreign address skipped, created, spent) and hand created↔removed and spent↔unspent to the store in the corresponding argument positions. (R4) in the event builders two tests of different address operands of one loop element against the wallet's address are mutually independent (each reached on both outcomes of the other). (R5) each relevance predicate of the wallet (a function from a transaction and an address to bool) ranges over the whole siacoin output list and the whole siacoin input list of the transaction, comparing an address of the ranged element with its address parameter and reporting relevance on equality, and subscripts neither list at a fixed position — a jointly funded transaction is relevant whichever position the wallet's input has. (R6) in every function of the repository (the reference wallet store and contractor in testutil included), a loop over positions of a list that removes the element at the current position (slices.Delete(S, i, i+1) or append(S[:i], S[i+1:]...)) cannot come round to the next position on a path that neither decrements the position nor leaves the loop: otherwise the element that slid into the freed position is never examined (every second event of a reverted block survives). (R7) every repository implementation of UpdateTx.WalletRevertIndex writes its event-list field before every success return; (R8) every definition of the index handed to WalletRevertIndex that reaches the call is a ChainIndex literal whose ID is <update>.Block.ID(). NOT decided: equality of the utxo set and events with a linear replay, maturity heights, inflow − outflow = balance."
 
 	register(&Rule{ID: "C06.R1", Prop: "C06", Floor: 4, Doc: "proof-move / index-update order on apply and revert; reverts before applies", Run: c06r1})
 	register(&Rule{ID: "C06.R2", Prop: "C06", Floor: 8, Doc: "event tables are exhaustive and agree (type switches, decoders, emitted pairs)", Run: c06r2})
